@@ -475,7 +475,7 @@ func (fx *FnCtx) selectField(heap map[string]string, v Val, name string) Val {
 	if v.Ty == nil {
 		fx.fail("field %s of untyped spec value %s", name, v.T)
 	}
-	obj, index, _ := types.LookupFieldOrMethod(v.Ty, true, fx.pkg.Types, name)
+	obj, index, _ := fx.lookupField(v.Ty, name)
 	fld, ok := obj.(*types.Var)
 	if !ok || fld == nil {
 		fx.fail("no field %s in %v", name, v.Ty)
@@ -817,4 +817,21 @@ func (fx *FnCtx) specCall(env *Env, c *SCall) Val {
 		return Val{sf.Name, rs, rt}
 	}
 	return Val{"(" + sf.Name + " " + strings.Join(args, " ") + ")", rs, rt}
+}
+
+// lookupField finds a field (or method) by name; unexported fields of a type of another package are
+// visible to contracts too (assumed contracts of library types speak about their representation).
+func (fx *FnCtx) lookupField(t types.Type, name string) (types.Object, []int, bool) {
+	obj, index, ind := types.LookupFieldOrMethod(t, true, fx.pkg.Types, name)
+	if obj != nil {
+		return obj, index, ind
+	}
+	b := t
+	if el, ok := derefType(b); ok {
+		b = el
+	}
+	if n, ok := types.Unalias(b).(*types.Named); ok && n.Obj().Pkg() != nil {
+		return types.LookupFieldOrMethod(t, true, n.Obj().Pkg(), name)
+	}
+	return obj, index, ind
 }
